@@ -149,7 +149,7 @@ def avStr : AV → String
   | .iter => "iter"
   | .gen => "iter"
   | .pmap => "m:?"
-  | .inner nx => if nx then "m:n60" else "m:n61"
+  | .inner nx => if nx then "m:n900" else "m:n901"
   | .one v => "(l " ++ avStr v ++ ")"
   | .obj n => s!"m:n{n}"
   | .host n g => s!"h:n{n}#{g}"
